@@ -171,7 +171,9 @@ def unit_cases(tier):
 
 def xh_conditions(tier):
     t = 150 if tier == "quick" else 500
-    return [dict(name=f"validation.{c}", file="xh/c03_validation.py", func=c, timeout=t, prop="C03") for c in ("_ints", "_outputs", "_types", "_two_inputs_photon_numbers")]
+    return [dict(name=f"validation.{c}", file="xh/c03_validation.py", func=c, timeout=t, prop="C03") for c in ("_ints", "_outputs", "_types", "_two_inputs_photon_numbers")] + [
+        # amplitudes of bunched states up to 18 photons: machine-integer behaviour of the factorial normalisation
+        dict(name="norm._bunched_simulator", file="xh/c04_norm.py", func="_bunched_simulator", timeout=t, prop="C03")]
 
 
 def harnesses(tier):
